@@ -17,5 +17,7 @@ def check(ctx: Ctx) -> None:
     # "end callback exactly once with its id" (shared with C11)
     from . import naming as N
     N.r_id_discipline(ctx, "R03.7")
+    from . import cancel as K
+    K.r_cancel_targets(ctx, "R03.8")
     S.r_handoff(ctx, "R02.1")
     S.r_snapshot_forget(ctx, "R13.1")
